@@ -1,5 +1,5 @@
 PROP = {
-    "lean_modules": ["GunYu.Props.C08", "GunYu.Props.C08Faults", "GunYu.Props.C08Verify", "GunYu.Props.C08Root"],
+    "lean_modules": ["GunYu.Props.C08", "GunYu.Props.C08Faults", "GunYu.Props.C08Verify", "GunYu.Props.C08Root", "GunYu.Props.C08Commit", "GunYu.Props.C08Open"],
     "audit_namespaces": ["GunYu.Props.C08"],
     "required_theorems": [
         "GunYu.Props.C08.reopen_range_contiguous",
@@ -57,6 +57,17 @@ PROP = {
         "GunYu.Props.C08.verify_run_id_right_id",
         "GunYu.Props.C08.root_bytes_true",
         "GunYu.Props.C08.root_snapshot_complete",
+        # session 5 — the snapshot commit failing at sync / close / rename (Props/C08Commit.lean)
+        "GunYu.Props.C08.commit_fail_dropped",
+        "GunYu.Props.C08.commit_fail_crash_not_offered",
+        "GunYu.Props.C08.commit_fail_script_snapshot_true",
+        "GunYu.Props.C08.reopen_snapshot_sized",
+        "GunYu.Props.C08.wrong_size_snapshot_not_offered",
+        "GunYu.Props.C08.changeReplId_second_branch_unreachable",
+        "GunYu.Props.C08.placeholder_id_ignored",
+        # a stream writer left open across SetRunId / DelRunId (Props/C08Open.lean)
+        "GunYu.Props.C08.open_writer_switch_crash_true",
+        "GunYu.Props.C08.open_writer_del_crash_true",
     ],
     "expected_facts": {"crc64tab_len": 256},
     "harness": [
@@ -74,7 +85,11 @@ PROP = {
             "and at a rotation (RLIMIT_FSIZE set by the writer's own write observer between the data write and the rotation), the open of the "
             "next segment failing at a rotation, os.Remove failing at the close of an empty live segment / at an incomplete snapshot / for every "
             "RemoveAll of a collector pass, or for SOME of its segments only (dgcp: those files immutable) (immutable attribute on the directory: create, unlink, rename fail with EPERM; counter "
-            "fault_injection_immutable_dir, or note_..._unsupported when the file system cannot). The REAL RdbWriter/AofRotater/resetDataSet/gcLogs run in a "
+            "fault_injection_immutable_dir, or note_..._unsupported when the file system cannot); SESSION 5: the COMMIT of a completely received snapshot failing (drdbaf; in the random scripts, "
+            "three per fault script — each followed by the same snapshot received again — and a corpus script): at the fsync (a pipe dup2'ed over the writer's descriptor right after the LAST data write, from inside "
+            "RdbWriter.write through the writer's own byte counter: fsync EINVAL, no rename attempted) with the temporary file removed (s) or not removable (S), at the close(2) ALONE (c: a seccomp filter on the descriptor number, EIO after a successful fsync), at the rename (immutable directory: EPERM) with the "
+            "temporary file removed (r: the attribute is cleared by the writer's observer between Close(left,size,true) and os.Remove) or left behind (R); at RUNTIME the child checks that Wait returns the commit "
+            "error (commit-failure-not-reported) and that GetRdb does not offer the snapshot (failed-commit-offered); counters fault_commit_{s,c,S,r,R}. The REAL RdbWriter/AofRotater/resetDataSet/gcLogs run in a "
             "child process under strace; the syscalls on the cache directory — successful AND failed attempts (fail create <flags> / fail remove / fail write @offset <bytes>) — are "
             "(1) compared op for op with the Lean model (scriptOps for fault-free scripts AND xScriptOps, which must agree; xrun with faults): name(s), "
             "open flags of every create (O_WRONLY|O_CREAT|O_TRUNC), offset and bytes of every write (append @size, header rewrite @0), rename source and "
@@ -86,7 +101,7 @@ PROP = {
             "validity of the offsets around every boundary, the set of files initDataSet unlinked (removed=), every stream byte read and every snapshot byte read through the real "
             "RdbReader are compared with the model and, independently, with the source bytes; (3) each closed segment of the final image "
             "is altered (data bit anywhere, data bit in the last 4 KiB piece, recorded size, recorded crc, truncated, extended) and each "
-            "footer-carrying snapshot (data bit, last piece, footer) and re-opened with verification; (4) random subsets of the final "
+            "footer-carrying snapshot (data bit, last piece, footer) and re-opened with verification; (3b, session 5) each committed snapshot of the final image one byte short / halved / one byte longer: must not be offered (counter snapshot_wrong_size_images); (4) random subsets of the final "
             "image (os.RemoveAll order is not lexical) are re-opened; (5) life after the restart: the real writer resumes at "
             "LatestOffset on the re-opened Storer, appends, the collector runs with a small limit; VERIFYING readers on the live index (c8v: segments the resumed "
             "writer closed pass, what the crash left torn is refused, the writer's own segment is not verified; then one closed segment is altered on disk; then the writer's close fails its header rewrite "
@@ -109,7 +124,7 @@ PROP = {
         "process-death semantics of the file system: a crash leaves a prefix of the issued syscalls, the last write possibly torn "
         "(power-loss reordering of unsynced writes is outside the property); a directory rename is atomic",
         "the fault injection stands for the faults it imitates: RLIMIT_FSIZE (EFBIG after k bytes) for a failing write, the immutable directory attribute (EPERM) for "
-        "failing create / unlink of the directory's entries; the code under test does not look at the errno",
+        "failing create / unlink / rename of the directory's entries, a pipe dup2'ed over the snapshot writer's descriptor (fsync EINVAL) for an fsync that reports lost writes, a seccomp filter (close -> EIO) for a close that reports an error; the code under test does not look at the errno",
         "file-name classification (strconv.ParseInt / ParseRdbFile on names the writers produce) is done by the driver, not the model "
         "(the model's names are an inductive type; the second conjunct of tmp_snapshot_not_offered is therefore definitional)",
         "CRC64 burst detection: PROVED (burst_alteration_refused, from the regenerated table: GF(2)-linearity + injectivity of the register step + the folding identity) for every change "
@@ -134,7 +149,12 @@ PROP = {
         "lengths of appends and header rewrites, any truthful start directory); that the real writers issue exactly these file operations — names, flags, offsets, bytes, order, failed attempts — is the "
         "syscall-level correspondence (compared op for op on every script run), not a theorem; the Go code is not translated",
         "faults modelled and injected: header rewrite failing after k<16 bytes (close, rotation), open failing at rotation, os.Remove failing (empty live segment, temporary snapshot, every removal of a "
-        "collector pass or any subset of its segments), short write. NOT modelled / injected: a failing os.Rename / fsync at the snapshot commit (repaired in /repo 679f548 / 45f65ae and injected by C16's harness: the snapshot is then dropped like an incomplete one), "
+        "collector pass or any subset of its segments), short write; SESSION 5: the snapshot COMMIT failing (XOp.rdbCommitFail chunk ren rmOk: last chunk written; Sync/Close failed = no rename attempted, or the rename failed; "
+        "Close(left,size,true); os.Remove(tmp) succeeding or failing) — a constructor of XOp, so EVERY theorem over scripts with faults (fault_*, resume_*, root_*, live_*, closed_segment_file_exact) covers failing commits "
+        "anywhere in a script, cut at every syscall; commit_fail_dropped / commit_fail_crash_not_offered say what is specific to the step. Sync and Close are not directory operations: under process-death semantics the cuts "
+        "before/after them are the image after the last write (no FsOp for them; fsync/close are not compared in the trace). Injected: fsync failure and rename failure, each with removable / unremovable temporary file. "
+        "a failing close(2) ALONE after a successful fsync (stage c: a seccomp filter installed from the write hook makes close of that descriptor number return EIO in every thread; the model has one `ren = false` case for "
+        "sync and close — the attempted FILE operations are the same — but the injection is separate: a change that ignores only the close error gives `rename` for `remove` + failed-commit-offered). NOT modelled / injected: "
         "the fixHeader write of a new segment failing after its creation, os.Remove failing inside resetDataSet's walk or inside initDataSet (property-neutral: the file is cut again at the next "
         "re-opening), Sync/Close errors, a short write that crosses the rotation limit is modelled (no rotation) but the harness only injects k below the limit",
         "snapshot content: crash_snapshot_true / fault_crash_snapshot_true prove that an offered snapshot file holds exactly the bytes the ghost `received` records for that announcement "
@@ -151,23 +171,45 @@ PROP = {
         "OBSERVATION for the C05/C06 owners (not a C08 statement, no C08 finding): after a failed header rewrite in closeAof (Seek/Write error) the close observer never runs; the index entry keeps size == -1 "
         "and its writer reference (rwRef) for ever, so (a) hasWriter stays true: verifying readers never verify that segment while the process lives (modelled: zombies ⊆ unverifiedOf; tied: c8v resumed_zombie), "
         "(b) gcLogs stops at it permanently (`aof.Ref() > 0 → break`): nothing at or after it is ever collected, the cache grows without bound until the next reset / restart (modelled: gcZ; tied op for op, "
-        "corpus header_rewrite_faults.txt: 'dgc removes nothing'). A restart cures both (initDataSet re-builds the entry with its size; the torn header is then refused by a verifying reader)",
-        "id level: root_bytes_true covers any interleaving of lives and id-level operations cut at any syscall (RootReach); the tie runs two id scripts per run. A writer left OPEN across an id switch / "
-        "DelRunId (old.Close() after the rename: header rewrite through the open descriptor, os.Remove with the old path) is outside Disk.okOp and not scripted; changeReplId's second branch "
-        "(RemoveAll(new) + MkdirAll(old)) is unreachable from SetRunId and not modelled; after DelRunId the Storer's dir is \"\" — a writer created before the next SetRunId would write to the "
+        "corpus header_rewrite_faults.txt: 'dgc removes nothing'). A restart cures both (initDataSet re-builds the entry with its size; the torn header is then refused by a verifying reader). "
+        "DECIDED (session 5), concrete scenario for C05/C06: `dnew 32 96 ; daofw 100 ; daofa <10 bytes> ; daofcf 5 ; daofw 110 ; daofa … ; dgc` — after the failed close the segment [100,110) stays indexed with size -1: "
+        "every offset in it is valid AND readable (the reader opens the file, skips verification because hasWriter, and moves on to 110.aof at EOF because 100 is not lastSeg), every byte served is the source's "
+        "(live_bytes_true; tied: c8v resumed_zombie, runtime monitor range-claims-unwritten-bytes) — NO property of C05/C06/C08 is violated ('valid offsets never readable' does not happen); what is lost is "
+        "verification of that one segment and ALL collection from it on until the next reset / restart (unbounded growth: a resource defect outside the 20 properties)",
+        "id level: root_bytes_true covers any interleaving of lives and id-level operations cut at any syscall (RootReach); the tie runs two id scripts per run. A STREAM writer left OPEN across an id switch / "
+        "DelRunId is MODELLED AND SCRIPTED since session 5 (Model/StoreRoot.lean lateCloseOp / lateCloseTarget / lateCloseRoot; Props/C08Open.lean): newRunId scans the new directory first and closes the old index afterwards, "
+        "DelRunId removes the directory and then resets — the writer's closeAof runs AFTER the directory-level syscalls: its header rewrite goes through the open DESCRIPTOR (into <base>/<new>/<left>.aof after a rename, into an "
+        "unlinked inode after DelRunId: no effect), the removal of an EMPTY live segment goes by the OLD path (fails after a rename: the 16-byte file stays in the new directory, ignored by the scan). open_writer_switch_crash_true / "
+        "open_writer_del_crash_true: cut at every syscall of the switch, the late header rewrite torn at every length, every id serves its own bytes (hypotheses: RootOk, the rename hypothesis, the live file has its 16-byte header "
+        "where the close finds it — checked by the driver on every instance: hyp wf). Tie: the id scripts leave writers open before a rename (also an empty live segment), a switch, DelRunId of the current and of another id "
+        "(counter id_op_finds_writer_open_*); the trace parser follows open descriptors into renamed directories and drops those of unlinked files. These two theorems are stated on the base-directory level (RootOk), "
+        "not yet as constructors of RootReach; a SNAPSHOT writer left open across a switch (its os.Remove(tmp) by the old path fails after a rename, the temporary file stays) and VerifyRunId with an open writer are not scripted; changeReplId's second branch "
+        "(RemoveAll(new) + MkdirAll(old)) is MODELLED (session 5: changeReplIdSys) and PROVED unreachable from SetRunId (changeReplId_second_branch_unreachable: whenever SetRunId calls changeReplId the new id has no "
+        "directory, the rename is what is issued; reaching it needs another process creating <base>/<new> between ExistReplId and Stat — one process owns the base directory); SetRunId(\"\") / SetRunId(\"?\") issue no "
+        "syscall (placeholder_id_ignored; the model was STALE against /repo 02e084c — it still renamed the current directory to <base>/? — and no script called SetRunId(\"?\") with a current directory: now the id "
+        "scripts do, and reverting 02e084c gives `rendir a ?` + served-wrong-byte with a replay); after DelRunId the Storer's dir is \"\" — a writer created before the next SetRunId would write to the "
         "process' working directory (not scripted, the callers set an id first)",
         "bridge to C06 (reopen_cache_wf for ANY image, reopened_cache_wf / reopened_cache_ok for every script and crash instant; definitions imported from Model/Psync.lean): "
         "the re-opened cache satisfies C06's CacheWF and CacheOK. Remaining hypotheses: offsets fit int64 (the model's offsets are naturals), the label id is a real id, and for "
         "CacheOK the callers' SrcOk (the chunks appended are history id's bytes). C06's theorems are not re-stated here (Props/C06 is not imported: a broken C06 must not break C08); "
         "the bridge theorems are stated for the fault-free scripts (crashImage), not re-stated for xScriptOps",
-        "a committed snapshot NAME with fewer bytes than announced (copy, file-system repair, power loss after an unsynced rename) is outside the quantifier "
-        "(process death + alterations of closed segments): initDataSet trusts the name and does not compare info.Size(); such an image is not generated (SnapOk is a hypothesis of resume_*)",
+        "a committed snapshot NAME whose file has another size than announced (power loss with the rename on disk before the data or the directory never fsynced, a copy cut short, a file-system repair) is not a process-death "
+        "image (fault_crash_snapshot_complete) but is COVERED since session 5: initDataSet compares info.Size() with the size in the name (/repo a4935cf, found by the extended check: harness step 4b re-opens the final image "
+        "with each committed snapshot one byte short / halved / one byte longer) and the model's scanRdb does the same: reopen_snapshot_sized (ANY image: an offered snapshot's file holds exactly the announced number of "
+        "bytes — the length part of SnapOk for the offered snapshot is a theorem now), wrong_size_snapshot_not_offered. STILL outside: lost pages INSIDE a full-length snapshot file (only the optional CRC footer "
+        "detects them, with verification on), power-loss reordering of stream segment writes; SnapOk stays a hypothesis of resume_* / root_* for committed names that are NOT offered (the invariant speaks of all of them); "
+        "the wrong-sized file is not unlinked (it goes with the next reset)",
         "the literal syscall list is compared with the model: a rewrite that coalesces or splits writes, opens with other flags or writes the header with pwrite gives a DIFF (tie failure), not a violation; "
         "the crash images themselves are always built from the syscalls that really occurred",
         "crc_mismatch_refused for arbitrary alterations is 'refused unless length equal and CRC64 collides' (altered_data_accepted_iff); "
         "the burst-error detection property of CRC64 itself is not re-proved; the version/reserved header bytes are checked by neither code nor model",
-        "read() ignores tryReadNextFile's error: a corrupt NEXT segment ends the reader with os.ErrInvalid, not ErrCorrupted (the caller only drops "
-        "the cache on ErrCorrupted) — a refusal either way, outside the property's wording",
+        "read() ignores tryReadNextFile's error: a corrupt NEXT segment ends the reader with os.ErrInvalid (openFile's closeAof sets r.file = nil, the next r.file.Read fails), a corrupt ENTRY segment fails GetReader with "
+        "pkg/common.ErrCorrupted (tied: c8r `read N other` / `err corrupt`) — a refusal either way, which is all the property says. FOLLOWED TO THE CALLER (session 5, by reading; not run at syncer level): RedisInput.Run drops the cache only on syncer.ErrCorrupted "
+        "(= fmt.Errorf(\"%w corrupted\", ErrBreak)), another sentinel than pkg/common.ErrCorrupted: before /repo feb3ca9 a damaged ENTRY segment made every run fail with an error that is not ErrBreak, the loop slept 2 s and "
+        "retried from the same position for ever (the tool stalled; no wrong byte served). feb3ca9 (another owner, during this session) joins syncer.ErrCorrupted in readChannel for the ENTRY case. STILL there: a damaged NEXT "
+        "segment ends the reader with os.ErrInvalid (read() drops tryReadNextFile's error), which is neither sentinel — the run is retried, and only once the target's position has reached the damaged segment (it is then the "
+        "entry segment of the next reader) is the cache dropped; a reader that delivered nothing new before the boundary retries at the same position (liveness, outside the 20 properties; repair sketch: read() returns "
+        "tryReadNextFile's ErrCorrupted)",
     ],
 }
 
@@ -180,15 +222,18 @@ MANIFEST = {
             "and exactly the bytes the snapshot writer received, in order (fault_crash_snapshot_true, ghost `received`), and every byte a reader of the re-opened cache delivers is the source's byte at that offset "
             "(fault_crash_bytes_true; hypothesis: the chunks appended are the source's bytes). LIFE AFTER THE RESTART: the same from ANY truthful directory a new process re-opens, any number of times "
             "(resume_*), and above the directory: SetRunId (rename on an id change), VerifyRunId among several ids, DelRunId (RemoveAll in any order) cut at any syscall — what is served under an id is that id's "
-            "(root_bytes_true). Checksum verification: no byte at or "
+            "(root_bytes_true). A snapshot COMMIT that fails at the fsync, the close or the rename (scripts with XOp.rdbCommitFail anywhere; injected: fsync failure, close(2) failure ALONE after a successful fsync (seccomp filter on the descriptor), rename failure, temporary file removable or not) is dropped, reported by Wait and never "
+            "offered, at run time and at every cut of the commit sequence (commit_fail_dropped, commit_fail_crash_not_offered); beyond process death: for ANY image a committed NAME whose file has another size than announced is not offered "
+            "(reopen_snapshot_sized, wrong_size_snapshot_not_offered; /repo a4935cf). A stream writer left OPEN across SetRunId / DelRunId (closed by the code AFTER the directory-level syscalls: header rewrite through the "
+            "descriptor into the renamed directory, removal by the old path) is modelled and scripted (open_writer_switch_crash_true, open_writer_del_crash_true). Checksum verification: no byte at or "
             "beyond a closed segment that FAILS THE CHECK is delivered wherever it is in the chain, after a restart and while a writer is attached (its own segment is not verified: 99a0b20; the reader reads the files); in every reachable state a closed segment's file is exactly closedHeader data ++ data (closed_segment_file_exact), so: an altered recorded CRC or size is refused, altered data is "
             "accepted only if length is equal and CRC64 collides (never for a change within 8 consecutive bytes: proved from the table), header and data rewritten consistently are accepted (inherent). Tie: the real writers run under strace (incl. production-size segments and "
             "snapshots, injected faults); the syscall list — flags, offsets, bytes, order, failed attempts — is compared op for op with the model, the model's crash images with the real ones, and every prefix / torn "
             "write / alteration / random subset is re-opened by the real code (answers, bytes, files unlinked compared with the model); id-level syscalls and resumed lives in several directories likewise. "
             "Bridge: the re-opened cache satisfies C06's CacheWF / CacheOK (reopened_cache_wf, reopened_cache_ok), so C06's theorems apply to whatever survives a crash.",
     "note": "trusted: Lean kernel, strace + trace parser, process-death (not power-loss) file-system semantics, name classification in the driver, fault injection (RLIMIT_FSIZE, immutable dir) standing for I/O errors; "
-            "partial: real-writers-issue-the-model's-operations is correspondence not theorem, rename/fixHeader/reset-walk faults not injected, CRC burst detection proved for 8-byte windows (58..64-bit unaligned bursts trusted), "
-            "rename on an id change needs the new id to continue the history held (C06). D15 fixed (9091dc9).",
+            "partial: real-writers-issue-the-model's-operations is correspondence not theorem, a failing close(2) alone / fixHeader / reset-walk faults not injected, CRC burst detection proved for 8-byte windows (58..64-bit unaligned bursts trusted), "
+            "rename on an id change needs the new id to continue the history held (C06). D15 fixed (9091dc9), snapshot size defence (a4935cf).",
     "technique": "Lean 4 proof (structural induction over arbitrary directory images, operation lists with faults and writer scripts with a file-level invariant, re-established from any truthful directory) + "
                  "syscall-trace correspondence (strace, failed attempts included) with exhaustive crash-prefix replay",
 }
